@@ -13,6 +13,8 @@ for pid in props.IDS:
     except ModuleNotFoundError:
         na.append({'property_id': pid, 'reason': NOT_BUILT})
         continue
+    from simv.driver import _apply_meta
+    _apply_meta(p)
     served.append(pid)
     checks.append({
         'property_id': pid,
